@@ -109,3 +109,9 @@ claim("C18",
   "For every generated (type, value, option set): schema generation must succeed and terminate, the generated references must resolve within the returned component map (the schemas are loaded as a document), and the standard JSON encoding of the value must validate against the generated schema, as a float64 tree and as a json.Number tree.",
   "Trusted: encoding/json as the definition of 'the JSON encoding', reflect.StructOf for building struct types (embedding uses hand-declared named types). Two open findings: nil pointers to types cut into component references; anonymous structs under CreateComponentSchemas (excluded by construction).",
   "DESIGN.md#c18")
+
+claim("C17",
+  "property-based testing with an abstract-model (semantic round-trip) oracle: rapid-generated Swagger 2.0 documents of the convertible fragment; an API model (operations, parameters with constraints, body / form fields, responses, definitions, servers, security) is extracted independently from the raw v2 JSON and from the marshalled v3 JSON and compared after ToV3 and again after FromV3(ToV3(doc)); the converted document must validate and the document converted back may only use Swagger 2 reference prefixes",
+  "For every generated document ToV3 must succeed, its result must pass validation and describe the same API; converting back must describe that API again with every reference at a Swagger 2 location. Differences are reported as the model path of the first lost / invented / changed element.",
+  "Trusted: the two extractors (props/c17/model.go, written against the two specifications), one-level dereferencing of shared components, the choice of what is not part of the model (collectionFormat, parameter descriptions, x- bookkeeping extensions). One open finding (shared formData parameter comes back as a definition), excluded by construction.",
+  "DESIGN.md#c17")
